@@ -1,8 +1,141 @@
-//! C20 — stub, to be written.
+//! C20: the `.dot` export lists exactly the nodes and edges of the diagram.
+//!
+//! `C20.dot <bdd> <names> <pruned> => x<hex of the text> <=|x<hex>>` — the first observation is
+//! `to_dot_string`, the second `write_as_dot_string` into a `Vec<u8>` (`=` when it is the same text).
+//! Names travel hex-encoded (`h<utf8 bytes>`, lists joined by `,`, the empty list is `~`).
 #[path = "../common.rs"]
 mod common;
+use biodivine_lib_bdd::*;
 use common::*;
 
-pub fn run(key: &str, _a: &[String], _out: &mut Out) { panic!("unknown key {}", key) }
-pub fn gen(_tier: Tier, _rng: &mut Rng64, _out: &mut Out) {}
+fn s(x: &str) -> String { x.to_string() }
+
+fn hex(bytes: &[u8]) -> String {
+    let mut r = String::with_capacity(2 * bytes.len());
+    for b in bytes { r.push_str(&format!("{:02x}", b)); }
+    r
+}
+fn enc_name(n: &str) -> String { format!("h{}", hex(n.as_bytes())) }
+fn dec_name(h: &str) -> String {
+    let h = &h[1..];
+    let bytes: Vec<u8> = (0..h.len() / 2).map(|i| u8::from_str_radix(&h[2 * i..2 * i + 2], 16).unwrap()).collect();
+    String::from_utf8(bytes).unwrap()
+}
+fn enc_names(ns: &[String]) -> String {
+    if ns.is_empty() { s("~") } else { ns.iter().map(|n| enc_name(n)).collect::<Vec<_>>().join(",") }
+}
+fn dec_names(f: &str) -> Vec<String> {
+    if f == "~" { vec![] } else { f.split(',').map(dec_name).collect() }
+}
+
+pub fn run(key: &str, a: &[String], out: &mut Out) {
+    match key {
+        "C20.dot" => {
+            let bdd = Bdd::from_string(&a[0]);
+            let names = dec_names(&a[1]);
+            let pruned = a[2] == "1";
+            let refs: Vec<&str> = names.iter().map(|x| x.as_str()).collect();
+            let vs = match catch(|| BddVariableSet::new(&refs)) {
+                Some(vs) => vs,
+                None => { out.case(key, a, &[s("badset")]); return; }
+            };
+            let text = catch(|| bdd.to_dot_string(&vs, pruned));
+            let written = catch(|| { let mut buf: Vec<u8> = Vec::new(); bdd.write_as_dot_string(&mut buf, &vs, pruned).map(|_| buf) });
+            let f1 = match &text { Some(t) => format!("x{}", hex(t.as_bytes())), None => s("panic") };
+            let f2 = match (&text, &written) {
+                (Some(t), Some(Ok(w))) if t.as_bytes() == &w[..] => s("="),
+                (_, Some(Ok(w))) => format!("x{}", hex(w)),
+                (_, Some(Err(_))) => s("err"),
+                (_, None) => s("panic"),
+            };
+            out.case(key, a, &[f1, f2]);
+        }
+        _ => panic!("unknown key {}", key),
+    }
+}
+
+fn name_sets(n: usize) -> Vec<Vec<String>> {
+    let pools: [&[&str]; 5] = [
+        &["a", "b", "c", "d", "e", "f", "g", "h", "i", "j"],
+        &["x_0", "x_1", "x_2", "x_3", "x_4", "x_5", "x_6", "x_7", "x_8", "x_9"],
+        &["v 1", "é", "a.b-c", "", "0", "1", "--", "[label]", "init__", ";"],
+        &["1", "0", "2", "digraph G {", "}", "style filled", "x,y", "π/2", "A", "a"],
+        &["long_variable_name_number_zero", "B", "cc", "D4", "_", "e e", "f;", "#", "%d", "{}"],
+    ];
+    pools.iter().map(|p| p.iter().take(n).map(|x| x.to_string()).collect()).collect()
+}
+
+fn both(bdd: &str, names: &[String], out: &mut Out) {
+    for p in ["0", "1"] { run("C20.dot", &[s(bdd), enc_names(names), s(p)], out); }
+}
+
+pub fn gen(tier: Tier, rng: &mut Rng64, out: &mut Out) {
+    let thorough = tier == Tier::Thorough;
+    // --- all functions over n <= 3 variables (constants, literals, both-terminal children, shared nodes),
+    //     pruned and not, several name sets
+    for n in 0..=3usize {
+        let count = 1u64 << (1u64 << n);
+        let sets = name_sets(n);
+        for t in 0..count {
+            let b = fmt_bdd(&bdd_of_tt(n, &tt_from_index(n, t)));
+            for (i, names) in sets.iter().enumerate() {
+                if thorough || n < 3 || i < 2 || rng.chance(1, 4) { both(&b, names, out); }
+            }
+        }
+    }
+    // n = 4: all 65 536 functions in the thorough tier, a sample otherwise
+    {
+        let sets = name_sets(4);
+        let rounds: u64 = if thorough { 65536 } else { 1500 };
+        for i in 0..rounds {
+            let t = if thorough { i } else { rng.below(65536) };
+            let b = fmt_bdd(&bdd_of_tt(4, &tt_from_index(4, t)));
+            let names = rng.pick(&sets).clone();
+            if thorough { run("C20.dot", &[b, enc_names(&names), s(if rng.bool() { "1" } else { "0" })], out); } else { both(&b, &names, out); }
+        }
+    }
+    // --- random larger diagrams, also valid non-canonical ones (duplicated nodes, unreachable nodes, redundant tests,
+    //     non-post-order numbering): the export walks the node array, not the graph
+    for _ in 0..(if thorough { 20000 } else { 1200 }) {
+        let n = 4 + rng.below(5) as usize;
+        let mut b = random_bdd(rng, n);
+        if rng.chance(1, 3) { b = noncanon_variant(rng, &b); }
+        let sets = name_sets(n);
+        let names: Vec<String> = rng.pick(&sets[..]).clone();
+        both(&fmt_bdd(&b), &names, out);
+    }
+    // --- few-node diagrams over many variables (level gaps, multi-digit variable indices and node ids)
+    for _ in 0..(if thorough { 2000 } else { 150 }) {
+        let n = 10 + rng.below(300) as usize;
+        let names: Vec<String> = (0..n).map(|i| format!("n{}", i)).collect();
+        let mut lits: Vec<(usize, bool)> = vec![];
+        for i in 0..n { if rng.chance(1, 8) { lits.push((i, rng.bool())); } }
+        // chain (conjunctive clause) laid out by hand: last literal first
+        let mut nodes = vec![(n, 0, 0), (n, 1, 1)];
+        for (i, v) in lits.iter().rev() {
+            let root = nodes.len() - 1;
+            nodes.push(if *v { (*i, 0, root) } else { (*i, root, 0) });
+        }
+        both(&fmt_triples(&nodes), &names, out);
+    }
+    // --- malformed stream: labels that need escaping (the export does not escape), name count mismatch,
+    //     a decision node whose variable has no name
+    let weird: [&[&str]; 4] = [&["a\"b", "c"], &["a\\", "b"], &["li\nne", "b"], &["\"", "\\\""]];
+    for names in weird {
+        let names: Vec<String> = names.iter().map(|x| x.to_string()).collect();
+        for t in 0..16u64 { both(&fmt_bdd(&bdd_of_tt(2, &tt_from_index(2, t))), &names, out); }
+    }
+    for n in 0..=3usize {
+        for m in 0..=4usize {
+            if m == n { continue; }
+            let names: Vec<String> = (0..m).map(|i| format!("v{}", i)).collect();
+            let t = rng.below(1u64 << (1u64 << n));
+            both(&fmt_bdd(&bdd_of_tt(n, &tt_from_index(n, t))), &names, out);
+        }
+    }
+    for b in ["|2,0,0|2,1,1|5,0,1|", "|2,0,0|2,1,1|2,0,1|", "|2,0,0|2,1,1|1,0,1|0,2,7|", "|2,0,0|2,1,1|1,0,1|0,2,2|0,3,1|"] {
+        both(b, &[s("a"), s("b")], out);
+    }
+}
+
 fn main() { harness_main(gen, run) }
